@@ -3,7 +3,7 @@
 seed: apply it to /repo, run the quick checks, undo, and store patch+demo+meta under /verif/seeded/."""
 import json, os, shutil, subprocess, sys, re
 d = os.path.abspath(sys.argv[1]); props = sys.argv[2:]
-tag = ("R4-" if "seedout4" in d else "R3-" if "seedout3" in d else "R2-" if "seedout2" in d else "") + os.path.basename(os.path.dirname(d)) + "-" + os.path.basename(d)
+tag = ("R5-" if "seedout5" in d else "R4-" if "seedout4" in d else "R3-" if "seedout3" in d else "R2-" if "seedout2" in d else "") + os.path.basename(os.path.dirname(d)) + "-" + os.path.basename(d)
 ver = json.load(open(os.path.join(d, "verified.json")))
 if not ver.get("confirmed"):
     print(tag, "not confirmed; not kept"); sys.exit(1)
